@@ -172,7 +172,7 @@ static void caseB(uint64_t i, vr::Ctx& ctx)
 static const char* kNums[] = { "0", "1", "5", "2147483647", "2147483648", "4294967295", "4294967296", "9223372036854775807",
                                "9223372036854775808", "18446744073709551615", "18446744073709551616", "99999999999999999999",
                                "-1", "+1", "0x10", "1e9", "", " 5", "5 ", "7fffffffffffffff", "ffffffffffffffff", "fffffffffffffffff",
-                               "-7fffffffffffffff", "1000000000", "3b9aca00" };
+                               "-7fffffffffffffff", "1000000000", "3b9aca00", "-2", "-3", "-5", "-12c", "fffffffffffffffe", "fffffffffffffffd", "fffffffffffffffb", "fffffffffffffed4", "8000000000000000", "8000000000000005" };
 static const int kNNums     = sizeof kNums / sizeof kNums[0];
 static void caseC(uint64_t i, vr::Ctx& ctx)
 {
@@ -231,11 +231,21 @@ static void caseC(uint64_t i, vr::Ctx& ctx)
         seam = in.size();
         in += "\r\n\r\n";
         break;
+    // (round 6) the size line of a LATER chunk: body bytes are already there when the value is read (5 / 300 of them)
+    case 9:
+    case 10:
+    case 11:
+    case 12:
+        rsp  = field >= 11;
+        in   = std::string(rsp ? "HTTP/1.1 200 OK\r\n" : "POST / HTTP/1.1\r\n") + "Transfer-Encoding: chunked\r\n\r\n" + (field % 2 ? "5\r\nhello\r\n" : "12c\r\n" + std::string(300, 'x') + "\r\n") + v + "\r\n";
+        seam = in.size();
+        in += "hello\r\n0\r\n\r\n";
+        break;
     }
     run_any(rsp, in, { seam }, ctx, "numeric");
     ctx.nontrivial(vr::hash_str(in, 17));
 }
-static const int kNFields = 9;
+static const int kNFields = 13;
 
 // ---- section D ------------------------------------------------------------------------------------
 struct HeaderSpec
